@@ -10,8 +10,7 @@ import (
 	"errors"
 	"fmt"
 	"math/big"
-	"math/rand/v2"
-	"sort"
+		"sort"
 	"strings"
 
 	"github.com/formancehq/numscript/internal/interpreter"
@@ -76,7 +75,6 @@ type SimStore struct {
 	meta      interpreter.AccountsMetadata
 	metaSnap  string
 	static    interpreter.StaticStore
-	rnd       *rand.Rand
 	n         int
 	requested map[string]map[string]bool
 	Log       []Call
@@ -123,7 +121,6 @@ func New(in gen.Inputs, plan Plan) *SimStore {
 	s.truthSnap = CanonBalances(s.truth)
 	s.metaSnap = CanonMeta(s.meta)
 	s.static = interpreter.StaticStore{Balances: s.truth, Meta: s.meta}
-	s.rnd = core.NewRand(plan.Seed ^ 0x5151)
 	if s.plan.MetaMode == "" {
 		s.plan.MetaMode = "exact"
 	}
@@ -178,6 +175,13 @@ func canonQuery(q map[string][]string) string {
 		fmt.Fprintf(&sb, "%s[%s]", a, strings.Join(xs, ","))
 	}
 	return sb.String()
+}
+
+// sub derives a per-call sub-choice from the plan seed and the query alone, so
+// that an answer is a function of (plan, query) and not of the order in which
+// concurrent runs reach a shared store.
+func (s *SimStore) sub(query string, i uint64) uint64 {
+	return core.Derive(s.plan.Seed, query, i)
 }
 
 func (s *SimStore) fault() (Fault, bool) {
@@ -292,7 +296,7 @@ func (s *SimStore) GetBalances(ctx context.Context, q interpreter.BalanceQuery) 
 		out = s.whole()
 	case ModeSparse:
 		out = interpreter.Balances{}
-		s.addExact(out, q, true, s.rnd.IntN(2) == 0)
+		s.addExact(out, q, true, s.sub(call.Query, 0)%2 == 0)
 	case ModeUnion:
 		out = interpreter.Balances{}
 		u := interpreter.BalanceQuery{}
@@ -302,10 +306,12 @@ func (s *SimStore) GetBalances(ctx context.Context, q interpreter.BalanceQuery) 
 		s.addExact(out, u, false, false)
 	case ModeRandSup:
 		out = interpreter.Balances{}
-		s.addExact(out, q, s.rnd.IntN(2) == 0, s.rnd.IntN(2) == 0)
+		s.addExact(out, q, s.sub(call.Query, 1)%2 == 0, s.sub(call.Query, 2)%2 == 0)
+		extra := uint64(3)
 		for _, a := range core.SortedKeys(s.truth) {
 			for _, as := range core.SortedKeys(s.truth[a]) {
-				if s.rnd.IntN(3) == 0 {
+				extra++
+				if s.sub(call.Query, extra)%3 == 0 {
 					if out[a] == nil {
 						out[a] = interpreter.AccountBalance{}
 					}
@@ -380,7 +386,7 @@ func (s *SimStore) GetAccountsMetadata(ctx context.Context, q interpreter.Metada
 					m[k] = v
 				}
 			}
-			if len(m) > 0 || s.rnd.IntN(2) == 0 {
+			if len(m) > 0 || s.sub(call.Query, 9)%2 == 0 {
 				out[a] = m
 			}
 		}
@@ -436,3 +442,67 @@ func (s *SimStore) ShapeKey() string {
 	}
 	return sb.String()
 }
+
+// Frozen is an immutable store for the free-running race mode: no counters,
+// no log, nothing written after construction, so any write the race detector
+// sees on its maps comes from the code under test.
+type Frozen struct {
+	truth  interpreter.Balances
+	meta   interpreter.AccountsMetadata
+	Mode   string // exact | superset
+	Shared bool
+}
+
+func NewFrozen(in gen.Inputs, mode string, shared bool) *Frozen {
+	return &Frozen{truth: ParseBalances(in.Balances), meta: CopyMeta(in.Meta), Mode: mode, Shared: shared}
+}
+
+func (f *Frozen) GetBalances(ctx context.Context, q interpreter.BalanceQuery) (interpreter.Balances, error) {
+	if f.Mode == ModeSuperset && f.Shared {
+		return f.truth, nil
+	}
+	out := interpreter.Balances{}
+	if f.Mode == ModeSuperset {
+		for a, m := range f.truth {
+			mm := interpreter.AccountBalance{}
+			for as, v := range m {
+				mm[as] = new(big.Int).Set(v)
+			}
+			out[a] = mm
+		}
+		return out, nil
+	}
+	for a, assets := range q {
+		m := interpreter.AccountBalance{}
+		for _, as := range assets {
+			if v, ok := f.truth[a][as]; ok {
+				if f.Shared {
+					m[as] = v
+				} else {
+					m[as] = new(big.Int).Set(v)
+				}
+			} else {
+				m[as] = big.NewInt(0)
+			}
+		}
+		out[a] = m
+	}
+	return out, nil
+}
+
+func (f *Frozen) GetAccountsMetadata(ctx context.Context, q interpreter.MetadataQuery) (interpreter.AccountsMetadata, error) {
+	if f.Shared {
+		return f.meta, nil
+	}
+	out := interpreter.AccountsMetadata{}
+	for a := range q {
+		m := interpreter.AccountMetadata{}
+		for k, v := range f.meta[a] {
+			m[k] = v
+		}
+		out[a] = m
+	}
+	return out, nil
+}
+
+func (f *Frozen) Snapshot() string { return CanonBalances(f.truth) + "|" + CanonMeta(f.meta) }
